@@ -228,11 +228,12 @@ func collectIRIs(n *vmodel.Node, out map[string]bool) {
 }
 
 type flatCase struct {
-	Kind  vmodel.StructKind
-	Type  string
-	Items map[string]vocab.Item   // flattened single positions
-	Lists map[string][]vocab.Item // flattened list positions
-	Via   string                  // dispatcher | typed
+	Kind    vmodel.StructKind
+	Type    string
+	Items   map[string]vocab.Item   // flattened single positions
+	Lists   map[string][]vocab.Item // flattened list positions
+	Via     string                  // dispatcher | typed
+	Emptied string                  // a list property set to an empty list with spare capacity that still holds a former member
 }
 
 func runFlatten(c *Ctx, fc flatCase, label string) {
@@ -281,6 +282,11 @@ func runFlatten(c *Ctx, fc flatCase, label string) {
 	for f, l := range fc.Lists {
 		fv := v.FieldByName(f)
 		if fv.IsValid() {
+			if f == fc.Emptied {
+				backing := vocab.ItemCollection{vocab.IRI("https://example.com/flat/former-member"), vocab.IRI("https://example.com/flat/former-member-2")}
+				fv.Set(reflect.ValueOf(backing[:0]))
+				continue
+			}
 			fv.Set(reflect.ValueOf(vocab.ItemCollection(append([]vocab.Item{}, l...))))
 		}
 	}
@@ -598,6 +604,19 @@ func init() {
 					if idx%600 == 0 {
 						c.Sample(map[string]any{"case": label})
 					}
+					runFlatten(c, fc, label)
+				}},
+				{Name: "emptied-lists", N: len(flatTargets) * len(flatListFields) * 2, Exhaustive: true, Run: func(c *Ctx, idx int) {
+					// what Clean(), Remove of the only member or a de-duplication leave behind: a list that is there with nobody in it
+					// (with and without spare capacity holding a former member), next to a filled one
+					ft := flatTargets[idx%len(flatTargets)]
+					f := flatListFields[(idx/len(flatTargets))%len(flatListFields)]
+					via := vias[(idx/(len(flatTargets)*len(flatListFields)))%2]
+					other := flatListFields[((idx/len(flatTargets))+1)%len(flatListFields)]
+					fc := flatCase{Kind: ft.Kind, Type: ft.Type, Lists: map[string][]vocab.Item{f: {}, other: {flatListItem("objA"), flatListItem("iriC")}}, Via: via, Emptied: f}
+					label := fmt.Sprintf("%s[%s].%s=[] (emptied) %s=[objA iriC] via %s", ft.Kind.Name, ft.Type, f, other, via)
+					c.Distinct(label, true)
+					c.Count("emptied-lists", 1)
 					runFlatten(c, fc, label)
 				}},
 				{Name: "list-arrangements", N: nArr * len(flatListFields), Exhaustive: true, Run: func(c *Ctx, idx int) {
